@@ -253,7 +253,7 @@ Fixpoint str_scan (m : smode) (f : fmt) (s : bytes) {struct s} : sres :=
         match t with
         | d :: t' =>
           if d =? 37 then str_scan MBody (add_lit f [37]) t'
-          else if d =? 40 then str_scan MEmb (flush f) t'
+          else if d =? 40 then str_scan MEmb (set_instr (flush f) false) t'
           else if is_directive d then str_scan MBody (push_piece (flush f) (PDir d)) t'
           else str_scan MBody (add_lit f [c]) t
         | [] => str_scan MBody (add_lit f [c]) t
